@@ -34,13 +34,13 @@ const (
 
 // Task is one simulated caller goroutine.
 type Task struct {
-	ID     int
-	User   bool // created by the harness (false: spawned by a library go statement)
-	state  taskState
+	ID      int
+	User    bool // created by the harness (false: spawned by a library go statement)
+	state   taskState
 	started bool
-	resume chan struct{}
-	fin    chan struct{}
-	fn     func()
+	resume  chan struct{}
+	fin     chan struct{}
+	fn      func()
 
 	gaps      []int64 // remaining preemption gaps
 	countdown int64
@@ -100,55 +100,55 @@ type Config struct {
 
 // Stats are counted per run (probes and fault-kind counters).
 type Stats struct {
-	SchedPoints    int64
-	Switches       int64
-	Preemptions    int64
-	PreemptInLib   int64
-	Points         int64
-	PoolGets       int64
-	PoolHits       int64
-	PoolMissEmpty  int64
-	PoolMissForced int64
-	PoolPuts       int64
-	PoolDrops      int64
-	PoolClears     int64
-	PoolStaleHits  int64
-	PoolAliasHits  int64
-	PoolNew        int64
-	PoolOverlap    int64 // Get while another task holds an item of the same pool
+	SchedPoints     int64
+	Switches        int64
+	Preemptions     int64
+	PreemptInLib    int64
+	Points          int64
+	PoolGets        int64
+	PoolHits        int64
+	PoolMissEmpty   int64
+	PoolMissForced  int64
+	PoolPuts        int64
+	PoolDrops       int64
+	PoolClears      int64
+	PoolStaleHits   int64
+	PoolAliasHits   int64
+	PoolNew         int64
+	PoolOverlap     int64 // Get while another task holds an item of the same pool
 	PoolMissOverlap int64
-	PoolNonLIFO    int64
-	LockOps        int64
-	LockBlocks     int64
-	OnceOps        int64
-	MapOps         int64
-	Spawned        int64
-	QuantumYields  int64
-	ClockReads     int64
-	RandDraws      int64
+	PoolNonLIFO     int64
+	LockOps         int64
+	LockBlocks      int64
+	OnceOps         int64
+	MapOps          int64
+	Spawned         int64
+	QuantumYields   int64
+	ClockReads      int64
+	RandDraws       int64
 }
 
 type abortPanic struct{ why string }
 
 // Sim is one run.
 type Sim struct {
-	cfg   Config
-	tasks []*Task
-	cur   *Task
+	cfg                       Config
+	tasks                     []*Task
+	cur                       *Task
 	schedPos, prePos, poolPos int
-	userLeft  int
-	aborting  bool
-	AbortWhy  string
-	mainWake  chan struct{}
-	St        Stats
-	hash      uint64
-	sigHash   uint64 // interleaving signature: order of (task, sync event)
-	Trace     []TraceEv
-	PointHit  []uint32 // per point id, nil if not collected
-	PreemptAt []int    // point ids at which preemptions fired
-	OnFault   bool
-	runBuf    [maxTasks]*Task
-	jumpPos   int
+	userLeft                  int
+	aborting                  bool
+	AbortWhy                  string
+	mainWake                  chan struct{}
+	St                        Stats
+	hash                      uint64
+	sigHash                   uint64 // interleaving signature: order of (task, sync event)
+	Trace                     []TraceEv
+	PointHit                  []uint32 // per point id, nil if not collected
+	PreemptAt                 []int    // point ids at which preemptions fired
+	OnFault                   bool
+	runBuf                    [maxTasks]*Task
+	jumpPos                   int
 }
 
 // S is the active simulation (nil: calm mode, library code runs unscheduled).
